@@ -86,6 +86,7 @@ func (m nilMap) copy() nilMap {
 
 type split[S any] struct {
 	nilS, nonNilS *S // continuation states; nil pointer = unreachable
+	base          *S // state right after the binding statement; the split applies only while the state is unchanged
 }
 
 type fstate[S any] struct {
@@ -328,7 +329,7 @@ func (e *Analysis[S]) refineNil(st *fstate[S], cond ast.Expr, branch bool) {
 			if obj := objOf(e.Info, x); obj != nil {
 				isNonNil := (be.Op == token.NEQ) == branch
 				// Select the continuation of a wrapper call bound to this variable.
-				if sp := st.splits[obj]; sp != nil {
+				if sp := st.splits[obj]; sp != nil && sp.base != nil && e.Equal(st.s, *sp.base) {
 					var pick *S
 					if isNonNil {
 						pick = sp.nonNilS
@@ -391,6 +392,19 @@ func (e *Analysis[S]) runBlock(fc *FlowCtx[S], b *cfg.Block, st fstate[S], ftype
 		}
 		fc.Nil = st.nils
 		st.s = e.Stmt(st.s, n, fc)
+		if boundSplit != nil {
+			// The continuations go through the binding statement as well.
+			if boundSplit.nilS != nil {
+				v := e.Stmt(e.Copy(*boundSplit.nilS), n, fc)
+				boundSplit.nilS = &v
+			}
+			if boundSplit.nonNilS != nil {
+				v := e.Stmt(e.Copy(*boundSplit.nonNilS), n, fc)
+				boundSplit.nonNilS = &v
+			}
+			b := e.Copy(st.s)
+			boundSplit.base = &b
+		}
 		// 3. Engine bookkeeping: kills, bindings, nil-ness of fresh definitions.
 		e.bookkeep(&st, n, boundCall, boundSplit)
 		if ret, ok := n.(*ast.ReturnStmt); ok {
